@@ -17,6 +17,7 @@ CONFIGS_QUICK = ["dir"]
 def run(ctx):
     BR.exactlen_table(ctx, "C07.R1")
     who.entity_bytes_flow(ctx, "C07.R2")
+    BR.exactlen_ctor_passthrough(ctx, "C07.R2.ctor")
     MP.constructor_inv(ctx, "C07.R3")
     MP.stream_invariant(ctx, "C07.R3")
     BR.error_injection(ctx, "C07.R4")
